@@ -22,7 +22,7 @@ fn line(parts: Vec<Part>) -> Stmt {
 
 /// names of the slot items (index = alphabet position); `i` = slot index for unique labels
 pub const ITEM_NAMES: &[&str] = &[
-    "text", "asg", "print", "glue-end", "glue-start", "tag", "cond-inline", "seq", "cycle", "once", "if-block", "fcall-value", "fcall-text", "fstmt-text", "tunnel", "temp", "string", "choice-basic", "choice-bracket", "choice-label", "choice-cond", "choice-fallback", "choice-nested", "thread", "count-knot", "turns-since", "choice-count", "divert-k2-back", "fcall-nested", "tag-alone", "line-divert", "choice-inline-divert", "seq-block", "tunnel-onwards", "divert-args", "silent-pingpong",
+    "text", "asg", "print", "glue-end", "glue-start", "tag", "cond-inline", "seq", "cycle", "once", "if-block", "fcall-value", "fcall-text", "fstmt-text", "tunnel", "temp", "string", "choice-basic", "choice-bracket", "choice-label", "choice-cond", "choice-fallback", "choice-nested", "thread", "count-knot", "turns-since", "choice-count", "divert-k2-back", "fcall-nested", "tag-alone", "line-divert", "choice-inline-divert", "seq-block", "tunnel-onwards", "divert-args", "silent-pingpong", "cond-inline-spaces", "line-divert-tight",
 ];
 
 pub fn item(a: usize, i: usize) -> Vec<Stmt> {
@@ -54,6 +54,13 @@ pub fn item(a: usize, i: usize) -> Vec<Stmt> {
         "line-divert" => vec![
             Stmt::Line { parts: vec![t("Going on "), p(x()), t(" ")], tags: vec![], divert: Some(Target::Label(lab("hop"))) },
             Stmt::Weave(Weave { choices: vec![], gather: Some(Gather { label: Some(lab("hop")), parts: vec![t("landed "), p(Expr::Count(lab("hop"))), t(".")] }) }),
+        ],
+        // blanks inside the braces of an inline conditional are part of the branch texts (L1b)
+        "cond-inline-spaces" => vec![line(vec![t("Lift"), Part::Cond(Expr::bin(x(), BinOp::Gt, Expr::Int(0)), vec![t(" up high ")], vec![t(" a bit ")]), t("and stop "), Part::Cond(Expr::bin(x(), BinOp::Gt, Expr::Int(0)), vec![t("now ")], vec![]), t("here.")])],
+        // no blank typed before the arrow: the text still ends in one (T1b)
+        "line-divert-tight" => vec![
+            Stmt::Line { parts: vec![t("Tight "), p(x()), t(",")], tags: vec![], divert: Some(Target::Label(lab("hopt"))) },
+            Stmt::Weave(Weave { choices: vec![], gather: Some(Gather { label: Some(lab("hopt")), parts: vec![t("\"landed\" "), p(Expr::Count(lab("hopt"))), t(".")] }) }),
         ],
         // the divert is written on the choice line: the choice's text runs on into the target (W2b)
         "choice-inline-divert" => vec![Stmt::Weave(Weave {
@@ -914,4 +921,129 @@ pub fn calibration() -> Vec<(&'static str, Program)> {
             ),
         ),
     ]
+}
+
+// ---------------------------------------------------------------------------------------------
+// weave-shape family: every small nesting of choices and gathers (labelled, unlabelled, bare,
+// missing), one or two weaves in a row, optionally opened by a labelled gather. The items above
+// fix one weave shape each; this family enumerates the shapes themselves.
+
+fn sh_choice(sticky: bool, text: &str, body: Vec<Stmt>) -> Choice {
+    Choice { sticky, label: None, conds: vec![], start: vec![t(text)], only: vec![], end: vec![], fallback: false, body }
+}
+
+const SH_INNER: usize = 5;
+/// level-2 weaves (inside a level-1 choice body); `u` makes texts and labels unique
+fn sh_inner(v: usize, u: &str) -> Weave {
+    let tx = |s: &str| format!("{s} {u}");
+    match v {
+        0 => Weave { choices: vec![sh_choice(false, &tx("in-a"), vec![Stmt::line(&tx("Inner a."))])], gather: None },
+        1 => Weave { choices: vec![sh_choice(false, &tx("in-a"), vec![Stmt::line(&tx("Inner a."))])], gather: Some(Gather { label: None, parts: vec![t(&tx("Inner gather."))] }) },
+        2 => Weave {
+            choices: vec![sh_choice(false, &tx("in-a"), vec![]), sh_choice(true, &tx("in-b"), vec![xplus(1)])],
+            gather: Some(Gather { label: Some(format!("ig{u}")), parts: vec![t("IG "), p(Expr::Count(format!("ig{u}"))), t(&tx("."))] }),
+        },
+        3 => Weave { choices: vec![sh_choice(false, &tx("in-a"), vec![Stmt::line(&tx("Inner a."))]), sh_choice(true, &tx("in-b"), vec![])], gather: None },
+        _ => Weave { choices: vec![sh_choice(false, &tx("in-a"), vec![Stmt::line(&tx("Inner a."))])], gather: Some(Gather { label: None, parts: vec![] }) },
+    }
+}
+fn sh_inner_gathered(v: usize) -> bool {
+    matches!(v, 1 | 2 | 4)
+}
+
+const SH_BODIES: usize = 16;
+/// bodies of a level-1 choice
+fn sh_body(b: usize, u: &str) -> Vec<Stmt> {
+    let tx = |s: &str| format!("{s} {u}");
+    let gathered = [1usize, 2, 4];
+    match b {
+        0 => vec![],
+        1 => vec![Stmt::line(&tx("Body."))],
+        2 => vec![xplus(1)],
+        3..=7 => vec![Stmt::Weave(sh_inner(b - 3, u))],
+        8..=12 => vec![Stmt::line(&tx("Body.")), Stmt::Weave(sh_inner(b - 8, u))],
+        _ => {
+            let v = gathered[b - 13];
+            debug_assert!(sh_inner_gathered(v));
+            vec![Stmt::line(&tx("Body.")), Stmt::Weave(sh_inner(v, u)), line(vec![t("After inner "), p(x()), t(&tx("."))])]
+        }
+    }
+}
+
+const SH_SECOND: usize = 4;
+fn sh_second(s: usize, u: &str) -> Option<Choice> {
+    let u2 = format!("{u}s");
+    match s {
+        0 => None,
+        1 => Some(sh_choice(true, &format!("other {u}"), vec![])),
+        2 => Some(sh_choice(true, &format!("other {u}"), vec![Stmt::line(&format!("Other body {u}."))])),
+        _ => Some(sh_choice(true, &format!("other {u}"), vec![Stmt::Weave(sh_inner(2, &u2))])),
+    }
+}
+
+const SH_GATHERS: usize = 3;
+fn sh_gather(g: usize, u: &str) -> Gather {
+    match g {
+        0 => Gather { label: None, parts: vec![t(&format!("Gather {u} ")), p(x()), t(".")] },
+        1 => Gather { label: Some(format!("og{u}")), parts: vec![t(&format!("Gather {u} ")), p(Expr::Count(format!("og{u}"))), t(".")] },
+        _ => Gather { label: None, parts: vec![] },
+    }
+}
+
+const SH_PRE: usize = 3;
+/// what stands before the weave's choices: nothing, a labelled gather with text, a bare labelled gather
+fn sh_pre(pv: usize, u: &str) -> Vec<Stmt> {
+    match pv {
+        0 => vec![],
+        1 => vec![Stmt::Weave(Weave { choices: vec![], gather: Some(Gather { label: Some(format!("pg{u}")), parts: vec![t(&format!("Opened {u} ")), p(Expr::Count(format!("pg{u}"))), t(".")] }) })],
+        _ => vec![Stmt::Weave(Weave { choices: vec![], gather: Some(Gather { label: Some(format!("pg{u}")), parts: vec![] }) })],
+    }
+}
+
+fn sh_outer(pv: usize, b: usize, s: usize, g: usize, u: &str) -> Vec<Stmt> {
+    let mut v = sh_pre(pv, u);
+    let mut choices = vec![sh_choice(false, &format!("first {u}"), sh_body(b, u))];
+    choices.extend(sh_second(s, u));
+    v.push(Stmt::Weave(Weave { choices, gather: Some(sh_gather(g, u)) }));
+    v
+}
+
+/// reduced option sets for the two-weave programs
+const SH2_BODIES: &[usize] = &[0, 1, 5, 9];
+const SH2_SECOND: &[usize] = &[0, 2];
+const SH2_PRE: &[usize] = &[0, 2];
+
+pub fn shape_count(k: usize) -> usize {
+    if k == 1 {
+        SH_PRE * SH_BODIES * SH_SECOND * SH_GATHERS
+    } else {
+        let one = SH2_PRE.len() * SH2_BODIES.len() * SH2_SECOND.len() * SH_GATHERS;
+        one * one
+    }
+}
+
+pub fn shape_nth(k: usize, mut idx: usize) -> (String, Program) {
+    let mut take = |n: usize| {
+        let r = idx % n;
+        idx /= n;
+        r
+    };
+    let mut body = vec![Stmt::line("Start.")];
+    let mut name = String::from("shape");
+    if k == 1 {
+        let (pv, b, s, g) = (take(SH_PRE), take(SH_BODIES), take(SH_SECOND), take(SH_GATHERS));
+        name.push_str(&format!("-p{pv}b{b}s{s}g{g}"));
+        body.extend(sh_outer(pv, b, s, g, "A"));
+    } else {
+        for u in ["A", "B"] {
+            let (pv, b, s, g) = (SH2_PRE[take(SH2_PRE.len())], SH2_BODIES[take(SH2_BODIES.len())], SH2_SECOND[take(SH2_SECOND.len())], take(SH_GATHERS));
+            name.push_str(&format!("-p{pv}b{b}s{s}g{g}"));
+            body.extend(sh_outer(pv, b, s, g, u));
+        }
+    }
+    body.push(line(vec![t("Tail "), p(x()), t(".")]));
+    body.push(Stmt::Divert(Target::Knot("fin".into())));
+    let (_, mut prog) = seg_nth(0, 1, 0);
+    prog.knots[0].body = body;
+    (name, prog)
 }
